@@ -109,9 +109,7 @@ func (e *Env) callValue(st *State, c *ssa.CallCommon, args []Val, rt types.Type,
 	for i := range args {
 		pn = append(pn, fmt.Sprintf("a%d", i))
 	}
-	if fr.depth == 0 {
-		e.callSiteChecks(st, dn, pn, args, c)
-	}
+	e.callSiteChecks(st, dn, pn, args, c)
 	return e.havocCall(st, dn, args, rt)
 }
 
@@ -513,7 +511,7 @@ func pureExternal(name string) bool {
 		"github.com/ethereum/go-ethereum/common.", "(github.com/ethereum/go-ethereum/common.", "github.com/ethereum/go-ethereum/crypto.", "math/bits.", "regexp.", "(*regexp.",
 		"github.com/ethereum/go-ethereum/common/hexutil.", "(github.com/cosmos/cosmos-sdk/types.AccAddress).", "github.com/cosmos/cosmos-sdk/types.AccAddressFromBech32",
 		"(time.Time).", "(time.Duration).", "sort.SearchInts", "github.com/cosmos/cosmos-sdk/types/errors.", "(*github.com/cosmos/cosmos-sdk/types/errors.Error).",
-		"github.com/tendermint/tendermint/crypto/tmhash.", "github.com/gogo/protobuf/proto.CompactTextString", "github.com/cosmos/ibc-go/v3/modules/apps/transfer/types.", "(github.com/cosmos/ibc-go/v3/modules/apps/transfer/types.DenomTrace).", "github.com/cosmos/cosmos-sdk/types.NewIntFromString", "github.com/cosmos/cosmos-sdk/types.NewDecWithPrec", "github.com/cosmos/cosmos-sdk/types.NewCoin", "github.com/gogo/protobuf/proto.Equal", "github.com/gogo/protobuf/proto.Size"} {
+		"github.com/tendermint/tendermint/crypto/tmhash.", "github.com/gogo/protobuf/proto.CompactTextString", "github.com/cosmos/ibc-go/v3/modules/apps/transfer/types.", "(github.com/cosmos/ibc-go/v3/modules/apps/transfer/types.DenomTrace).", "github.com/cosmos/cosmos-sdk/types.NewIntFromString", "(*github.com/cosmos/cosmos-sdk/codec/types.Any).GetCachedValue", "github.com/cosmos/cosmos-sdk/types.NewDecWithPrec", "github.com/cosmos/cosmos-sdk/types.NewCoin", "github.com/gogo/protobuf/proto.Equal", "github.com/gogo/protobuf/proto.Size"} {
 		if strings.HasPrefix(name, p) {
 			return true
 		}
